@@ -663,6 +663,11 @@ pub fn leftmost_is_minus(e: &Expr) -> bool {
 // ---------------------------------------------------------------------------------------
 // Printer
 
+/// What follows `//` up to the line end (never starting with `/`, which would make it a doc comment).
+pub const COMMENT_BODIES: &[&str] = &["", "", " plain comment", "c", " ", "\t", " // again", " \"unterminated", " é💣 ℝ", " { ( [ <<", " fn f() { let x = 1 }", " */ /*", "-", " \\"];
+/// What follows `///` of a doc comment.
+pub const DOC_BODIES: &[&str] = &["", " doc comment", "doc", " ", " `code` é💣", " / slash", " fn x() {"];
+
 pub struct Printer<'a, 'b> {
     pub out: String,
     c: Option<&'a mut Choices<'b>>,
@@ -686,13 +691,27 @@ impl<'a, 'b> Printer<'a, 'b> {
         }
         let k = match &mut self.c {
             None => 0,
-            Some(c) => c.weighted(&[10, 2, 1, 1, 1]),
+            Some(c) => c.weighted(&[10, 2, 1, 1, 1, 1]),
         };
         match k {
             0 => self.out.push(' '),
             1 => self.out.push('\n'),
             2 => self.out.push_str("\n    "),
             3 => self.out.push_str(" // c\n"),
+            5 => {
+                // comments as people and tools leave them: empty, glued to the slashes, full of
+                // things that look like code, several in a row
+                let body = match &mut self.c {
+                    None => "",
+                    Some(c) => *c.pick(COMMENT_BODIES),
+                };
+                self.out.push_str(" //");
+                self.out.push_str(body);
+                self.out.push('\n');
+                if body.is_empty() {
+                    self.out.push_str("//\n  //\n");
+                }
+            }
             _ => self.out.push_str("  \n\t"),
         }
     }
@@ -732,11 +751,19 @@ impl<'a, 'b> Printer<'a, 'b> {
             None => (false, false),
             Some(c) => (c.chance(40), c.chance(60)),
         };
+        let (b1, b2) = match &mut self.c {
+            None => (" plain comment", " doc comment"),
+            Some(c) => (*c.pick(COMMENT_BODIES), *c.pick(DOC_BODIES)),
+        };
         if c1 {
-            self.out.push_str("// plain comment\n");
+            self.out.push_str("//");
+            self.out.push_str(b1);
+            self.out.push('\n');
         }
         if doc && c2 {
-            self.out.push_str("/// doc comment\n");
+            self.out.push_str("///");
+            self.out.push_str(b2);
+            self.out.push('\n');
         }
         self.first = true;
     }
@@ -747,12 +774,33 @@ impl<'a, 'b> Printer<'a, 'b> {
             Some(c) => c.chance(40),
         };
         if md {
-            self.out.push_str("//// module doc\n");
+            let b = match &mut self.c {
+                None => " module doc",
+                Some(c) => *c.pick(DOC_BODIES),
+            };
+            self.out.push_str("////");
+            self.out.push_str(b);
+            self.out.push('\n');
         }
         for it in &m.items {
             self.item(it);
         }
         self.out.push('\n');
+        // a comment as the last bytes of the file, with no line break after it
+        let tail = match &mut self.c {
+            None => None,
+            Some(c) => {
+                if c.chance(30) {
+                    Some(*c.pick(COMMENT_BODIES))
+                } else {
+                    None
+                }
+            }
+        };
+        if let Some(b) = tail {
+            self.out.push_str("//");
+            self.out.push_str(b);
+        }
     }
 
     pub fn item(&mut self, it: &Item) {
